@@ -14,6 +14,8 @@ import (
 	"fmt"
 	"io"
 	"math/rand"
+	"os"
+	"path/filepath"
 	"reflect"
 	"sort"
 	"strconv"
@@ -379,7 +381,26 @@ func opJson(fields []string) string {
 		return "COMPILE " + class
 	}
 	var ms engine.Matches
-	if res := withBudget(func() string { ms = v.Run(text); return "" }); res != "" {
+	if len(fields) >= 3 && fields[2] != "" {
+		// the text arrives through a file whose path is spelled in a given form (doubled slash, dot segments, a
+		// directory argument with and without trailing slash): the in-memory filename is whatever RunFiles makes of it
+		dir, err := os.MkdirTemp("", "c17-")
+		if err != nil {
+			return "BADCASE"
+		}
+		defer os.RemoveAll(dir)
+		if os.MkdirAll(filepath.Join(dir, "d", "sub"), 0o755) != nil || os.WriteFile(filepath.Join(dir, "d", "f.txt"), []byte(text), 0o644) != nil {
+			return "BADCASE"
+		}
+		path := map[string]string{"plain": dir + "/d/f.txt", "doubled": dir + "/d//f.txt", "dot": dir + "/d/./f.txt",
+			"dotdot": dir + "/d/sub/../f.txt", "dir": dir + "/d", "dirslash": dir + "/d/", "dirdot": dir + "/d/."}[fields[2]]
+		if path == "" {
+			return "BADCASE"
+		}
+		if res := withBudget(func() string { ms = v.RunFiles([]string{path}, engine.NOTHING, false); return "" }); res != "" {
+			return "RUN " + res
+		}
+	} else if res := withBudget(func() string { ms = v.Run(text); return "" }); res != "" {
 		return "RUN " + res
 	}
 	out := []string{"N " + strconv.Itoa(len(ms)), "SHAPE " + c17Shape(ms), "MS " + c17MatchesS(ms)}
@@ -548,6 +569,19 @@ func init() {
 		cases := []Case{}
 		add := func(id, src, text string) {
 			cases = append(cases, Case{ID: id, Op: "json", Fields: []string{hx(src), hx(text)}, Meta: map[string]string{}})
+		}
+		// 0. the same kind of programs with the text arriving through a file whose path is not in canonical form
+		forms := []string{"plain", "doubled", "dot", "dotdot", "dir", "dirslash", "dirdot"}
+		for i, p := range c17Programs {
+			if i%3 != 0 && p.kind != "replace-nested" {
+				continue
+			}
+			for k, form := range forms {
+				feats := map[string]int{}
+				text := c17Text(r, 1+r.Intn(6), feats)
+				st.Features["via-file-path-"+form]++
+				cases = append(cases, Case{ID: fmt.Sprintf("vf%d.%d", i, k), Op: "json", Fields: []string{hx(p.src), hx(text), form}, Meta: map[string]string{}})
+			}
 		}
 		// 1. fixed programs over texts with quotes, backslashes, control characters, non-ASCII, invalid bytes
 		perProg := sizes(tier, 40, 600)
